@@ -27,6 +27,47 @@ impl Prop for C14 {
     }
     fn gen(&self, seed: u64, _tier: Tier) -> Case {
         let mut r = Rng::new(seed);
+        if r.chance(250) {
+            // 'layered' population: two pure layer keys and two typing keys on three layers; keys are
+            // pressed below / above later-activated layers and repeated there
+            let outs = ["x", "y", "z", "S-w", "C-v", "_", "_", "XX", "(multi lalt q)"];
+            let mut cfg = String::from("(defsrc f1 f2 k m)\n(deflayer l0 (layer-while-held l1) (layer-while-held l2) a b)\n");
+            for ln in ["l1", "l2"] {
+                let lk2 = if ln == "l1" { *r.pick(&["(layer-while-held l2)", "_"]) } else { "_" };
+                cfg.push_str(&format!("(deflayer {ln} _ {lk2} {} {})\n", r.pick(&outs), r.pick(&outs)));
+            }
+            let mut case = Case { prop: "C14".into(), seed, cfg, ..Default::default() };
+            let (f1, f2, k, m) = (oscode_of("f1"), oscode_of("f2"), oscode_of("k"), oscode_of("m"));
+            let mut ops = vec![];
+            let mut down: Vec<u16> = vec![];
+            for _ in 0..r.range(3, 12) {
+                let roll = r.below(100);
+                let typing_down: Vec<u16> = down.iter().copied().filter(|c| *c == k || *c == m).collect();
+                if roll < 40 && !typing_down.is_empty() {
+                    ops.push(Op::Repeat(*r.pick(&typing_down)));
+                } else {
+                    let key = *r.pick(&[f1, f2, k, m, k]);
+                    if down.contains(&key) {
+                        if r.chance(400) {
+                            ops.push(Op::Release(key));
+                            down.retain(|c| *c != key);
+                        }
+                    } else {
+                        ops.push(Op::Press(key));
+                        down.push(key);
+                    }
+                }
+                ops.push(Op::Gap(r.range(21, 40) as u32));
+            }
+            for c in down {
+                ops.push(Op::Release(c));
+                ops.push(Op::Gap(3));
+            }
+            ops.push(Op::Gap(50));
+            case.ops = ops;
+            case.set("pop", "layered");
+            return case;
+        }
         let feats = feat::PLAIN
             | feat::CHORD_OUT
             | feat::MULTI
@@ -110,8 +151,41 @@ impl Prop for C14 {
             Err(_) => return RunOut::skip("parser-rejected"),
         };
         let mut o = RunOut::pass();
+        if let Some(p) = case.param("pop") {
+            o.count(&format!("pop.{p}"), 1);
+        }
+        // physical keys that are layer keys and nothing else on every layer (they output nothing and
+        // decide nothing, so holding or pressing them does not disturb the attribution of outputs)
+        let layer_keys: Vec<u16> = {
+            let mut v = vec![];
+            if let Some(forms) = crate::sx::parse_top(&case.cfg) {
+                let src: Vec<String> = forms.iter().find(|f| f.head() == Some("defsrc")).and_then(|f| f.list()).map(|l| l[1..].iter().filter_map(|x| x.atom().map(|s| s.to_string())).collect()).unwrap_or_default();
+                let layers: Vec<&[crate::sx::SX]> = forms.iter().filter(|f| f.head() == Some("deflayer")).filter_map(|f| f.list()).collect();
+                let has_maps = forms.iter().any(|f| f.head() == Some("deflayermap"));
+                if !has_maps {
+                    for (i, name) in src.iter().enumerate() {
+                        let mut any_layer_action = false;
+                        let all_ok = layers.iter().all(|l| match l.get(i + 2) {
+                            Some(x) if x.atom() == Some("_") || x.atom() == Some("XX") => true,
+                            Some(x) if matches!(x.head(), Some("layer-while-held") | Some("layer-toggle")) && x.list().map(|v| v.len() == 2).unwrap_or(false) => {
+                                any_layer_action = true;
+                                true
+                            }
+                            _ => false,
+                        });
+                        if all_ok && any_layer_action && layers.first().map(|l| l.get(i + 2).map(|x| x.head().is_some()).unwrap_or(false)).unwrap_or(false) {
+                            v.push(oscode_of(name));
+                        }
+                    }
+                }
+            }
+            v
+        };
         let mut press_idx: std::collections::HashMap<u16, usize> = Default::default();
-        let mut layers_at_press: std::collections::HashMap<u16, (usize, usize)> = Default::default();
+        // layers consulted when the key was pressed (held layers, newest first, then the default
+        // layer): a repeat is still owed when further layers have been activated on top since, but
+        // not judged when one of these has been left (the output can no longer be attributed)
+        let mut layers_at_press: std::collections::HashMap<u16, (Vec<u16>, usize)> = Default::default();
         // was the engine drained when the key was pressed? (a pending tap-dance / tap-hold / chord /
         // one-shot of an EARLIER key is resolved by this press, and its output is not "what this
         // key put down")
@@ -161,11 +235,13 @@ impl Prop for C14 {
                     let undisturbed = press_idx
                         .get(c)
                         .map(|pi| {
-                            case.ops[*pi + 1..i].iter().all(|x| matches!(x, Op::Gap(_) | Op::Repeat(_))) && {
+                            case.ops[*pi + 1..i].iter().all(|x| matches!(x, Op::Gap(_) | Op::Repeat(_)) || matches!(x, Op::Press(k) if layer_keys.contains(k))) && {
                                 let mut dn: Vec<u16> = vec![];
                                 let mut last_other_input_gap = 1000u64;
                                 for x in &case.ops[..*pi] {
                                     match x {
+                                        Op::Press(k) if layer_keys.contains(k) => {}
+                                        Op::Release(k) if layer_keys.contains(k) => {}
                                         Op::Press(k) => {
                                             dn.push(*k);
                                             last_other_input_gap = 0;
@@ -182,8 +258,13 @@ impl Prop for C14 {
                             }
                         })
                         .unwrap_or(false);
-                    let layers_now = (st.k.layout.b().current_layer(), st.k.layout.b().default_layer);
-                    let undisturbed = undisturbed && layers_at_press.get(c).map(|l| *l == layers_now).unwrap_or(false) && drained_at_press.get(c).copied().unwrap_or(false);
+                    let layers_now: Vec<u16> = st.k.layout.b().trans_resolution_layer_order().iter().copied().collect();
+                    let default_now = st.k.layout.b().default_layer;
+                    let layers_ok = layers_at_press.get(c).map(|(ls, d)| *d == default_now && ls.iter().all(|x| layers_now.contains(x))).unwrap_or(false);
+                    if layers_ok && layers_at_press.get(c).map(|(ls, _)| ls.len() < layers_now.len()).unwrap_or(false) {
+                        o.count("completeness.layer-activated-on-top-since-press", 1);
+                    }
+                                        let undisturbed = undisturbed && layers_ok && drained_at_press.get(c).copied().unwrap_or(false);
                     if !undisturbed {
                         o.count("completeness.skipped-other-input-or-layer-change-since-press", 1);
                     }
@@ -230,7 +311,7 @@ impl Prop for C14 {
                 }
                 Op::Press(c) => {
                     press_idx.insert(*c, i);
-                    layers_at_press.insert(*c, (st.k.layout.b().current_layer(), st.k.layout.b().default_layer));
+                    layers_at_press.insert(*c, (st.k.layout.b().trans_resolution_layer_order().iter().copied().collect(), st.k.layout.b().default_layer));
                     {
                         let l = st.k.layout.b();
                         let drained = l.queue.is_empty()
